@@ -4,7 +4,7 @@ from __future__ import annotations
 from .common import *   # noqa: F401,F403
 from . import instr_gen as ig
 
-LEAF = ['Leaf_tick', 'Leaf_special', 'Leaf_hopo', 'Leaf_note', 'Leaf_build', 'Leaf_dispatch', 'Leaf_tracks', 'Leaf_chart', 'Leaf_fromfile']      # translated functions this property's model relies on (Tie/<name>.v)
+LEAF = ['Leaf_tick', 'Leaf_special', 'Leaf_hopo', 'Leaf_note', 'Leaf_build', 'Leaf_dispatch', 'Leaf_tracks', 'Leaf_chart', 'Leaf_fromfile', 'Leaf_meta']      # translated functions this property's model relies on (Tie/<name>.v)
 RULE = ("tracks of 2-12 note groups through Chart.from_file at resolutions {1,2,3,4,5,100,191,192,193,200,480,500,1000,random}: ordered pairs drawn from all 32 lane combinations "
         "(open included) x distances {thr-1, thr, thr+1, 1, 10*thr} (thr = resolution/3 to the nearest tick) x (tap, forced) in {0,1}^2 at every position; judged against the decision table "
         "spec_hopo; the section is [ExpertSingle] or any of the 40 instrument sections (drums included); lane lines are occasionally written twice in a tick. Non-trivial: some consecutive pair is at distance thr-1..thr+1 or carries a flag; distinct by text")
